@@ -89,6 +89,7 @@ func (d *Data) PutLabels(v dvid.VersionID, subvol *dvid.Subvolume, data []byte, 
 	// Iterate through index space for this data.
 	mutID := d.NewMutationID()
 	downresMut := downres.NewMutation(d, v, mutID)
+	defer downresMut.Abort() // releases the scales if we return before Execute
 
 	wg := new(sync.WaitGroup)
 
